@@ -8,7 +8,7 @@ PROPERTY = 'C08'
 LEVEL = 'exploration'
 RULE = ('file contents of length 0..6: ALL 2^(n-1) compositions into sync DATA records x ALL sets of <=k cut positions of the resulting sync byte stream into '
         'WRTE payloads (so every 8-byte sync header is split at every offset) + the all-1-byte chunking, destinations path/BytesIO, callback none/counting/'
-        'raising, both twins, read-fragment deviations; a pull following an aborted pull on the same connection; large files (64 KiB boundaries, MiB) x record sizes x WRTE sizes; oracle: destination bytes == model '
+        'raising, both twins, read-fragment deviations; a pull following an aborted pull on the same connection; device paths outside ASCII (one a prefix of another) with the exact UTF-8 path seen by the device; large files (64 KiB boundaries, MiB) x record sizes x WRTE sizes; oracle: destination bytes == model '
         'file, stream closed with exactly one host CLSE and every device packet consumed, callback counts sum to the size; non-trivial = file non-empty; '
         'distinct = distinct (content length, composition, cut set, destination, callback, twin, deviations)')
 ASSUMPTIONS = ['adbsim sync service (mc/adbsim.py) follows SYNC.TXT', 'file contents are seeded pseudo-random bytes; only length and chunking are enumerated']
@@ -61,6 +61,37 @@ def pull_and_judge(params, ch, cfg, data, shape):
                 'nontrivial': (shape, twin, dest, cb, tuple(ch.choices)) if data else None,
                 'sample': {'size': len(data), 'shape': shape if not big else str(shape)[:80], 'twin': twin, 'dest': dest, 'cb': cb, 'result': r[0]},
                 'trans': len(s.env.events)}
+    finally:
+        s.finish()
+
+
+PATHS = ['/sd/caf\u00e9/log1', '/sd/caf\u00e9/log10', '/\u3042/\u3044', '/data/\U0001F600.bin', '/a b/c,d', '/sd/\u00fc', '/plain/ascii']
+
+
+def run_paths(params, ch):
+    """Device paths outside ASCII (their UTF-8 length differs from their character count), one of them a prefix of another: pull
+    writes the bytes of exactly the requested file, and the device sees exactly the UTF-8 path in RECV (and in the STAT of a callback)."""
+    twin, dest, cb = params['twin'], params['dest'], params['cb']
+    files = {p.encode('utf-8'): {'data': content(20 + 7 * i, 'path%d' % i), 'mode': 0o100644, 'mtime': 9} for i, p in enumerate(PATHS)}
+    cfg = {'fs': {'files': files}, 'records': [9], 'cut': {'size': params['wrte']}}
+    s = Session(ch, cfg, twin=twin)
+    try:
+        s.op(('connect',))
+        viol = []
+        res = []
+        for p in PATHS:
+            n0 = len(s.env.sync_requests)
+            r = s.op(('pull', p, dest, {'cb': cb} if cb else {}))
+            res.append(r[0])
+            want = files[p.encode('utf-8')]['data']
+            if r != ('ok', want):
+                viol.append({'msg': 'pull(%r) delivered %r, the device file has %d bytes (%r...)' % (p, (r[0], (len(r[1]) if r[1] is not None else None) if r[0] == 'ok' else r[1:3]), len(want), want[:8])})
+            reqs = [(q[1], q[2]) for q in s.env.sync_requests[n0:]]
+            wantq = ([(b'STAT', p.encode('utf-8'))] if cb else []) + [(b'RECV', p.encode('utf-8'))]
+            if reqs != wantq:
+                viol.append({'msg': 'pull(%r): the device saw sync requests %r, expected %r' % (p, reqs, wantq)})
+        viol += oracle.base_viol(s, completed=all(x == 'ok' for x in res))
+        return {'outcome': tuple(res), 'viol': viol, 'nontrivial': tuple(sorted((k, str(v)) for k, v in params.items())), 'sample': dict(params, results=res), 'trans': len(s.env.events)}
     finally:
         s.finish()
 
@@ -125,6 +156,9 @@ def parts(tier):
           for n2 in (0, 9, 300)]
     out.append(Part('pull-after-aborted-pull', sc, run_after_abort, what='an aborted pull (failing destination / device service dies mid-record) followed by an ordinary pull on the same connection',
                     bound='%d cases' % len(sc)))
+    sc = [{'twin': t, 'dest': d, 'cb': cb, 'wrte': w} for t in twins for d in ('bytesio', 'path') for cb in (None, 'count', 'raise') for w in (5, 4096)]
+    out.append(Part('non-ascii-paths', sc, run_paths, what='7 device paths (non-ASCII, spaces and commas, one a prefix of another) pulled in turn on one connection', bound='%d cases x 7 paths' % len(sc),
+                    min_outcomes=1))
     sizes = [65535, 65536, 65537, 3 * 512 * 1024] + ([5 * 1024 * 1024] if tier == 'thorough' else [])
     sc = [{'size': z, 'rec': rc, 'wrte': w, 'twin': t, 'dest': d, 'cb': cb} for z in sizes for rc in ('max', 'one', 'mixed') for w in (1024 * 1024, 4096, 1000)
           for t in twins for (d, cb) in (('bytesio', None), ('path', 'count'))
